@@ -131,6 +131,26 @@ fn c02_sized_body_splits_more_t() {
 #[kani::proof]
 #[kani::stub(tracing::callsite::DefaultCallsite::register, stub_tracing_register)]
 #[kani::unwind(14)]
+fn c02_sized_body_splits_wide_t() {
+    // empty chunk first / in the middle / body only in the last chunk / the whole 12-byte pool
+    sized_lemma([0, 6, 0]);
+    sized_lemma([3, 0, 4]);
+    sized_lemma([0, 0, 7]);
+    sized_lemma([6, 5, 1]);
+}
+
+#[kani::proof]
+#[kani::stub(tracing::callsite::DefaultCallsite::register, stub_tracing_register)]
+#[kani::unwind(14)]
+fn c02_until_close_body_more_t() {
+    eof_kind_lemma([1, 1, 1]);
+    eof_kind_lemma([0, 0, 7]);
+    eof_kind_lemma([6, 5, 1]);
+}
+
+#[kani::proof]
+#[kani::stub(tracing::callsite::DefaultCallsite::register, stub_tracing_register)]
+#[kani::unwind(14)]
 fn c02_until_close_body() {
     eof_kind_lemma([2, 0, 3]);
     eof_kind_lemma([0, 0, 0]);
